@@ -1,7 +1,7 @@
 """
 C11 - decoration changes only the look: same text, right codes, none when plain.
 
-Five case families (field "k"):
+Case families (field "k"):
   msg     a message from a grammar (nested named + inline styles, unknown tags, bare '<' '>', newlines,
           non-ASCII; balanced; no backslashes) on AnsiFormatter(forced) / PlainFormatter /
           AnsiFormatter.remove_format, optionally with a style stack left by an earlier message and
@@ -13,9 +13,16 @@ Five case families (field "k"):
   write   every writing method of IO / Output / SectionOutput x formatter x indentation 0..4 x texts
   scopes  programs of nested indentation scopes (io / output / error output, set / increment,
           normal exit, exception, exception caught further out)
+  secprog programs of indentation scopes over SEVERAL section outputs of one output (scopes on single sections and
+          on the output / I/O they are created from, set / increment, exits by exception) around the creation of
+          sections and the writes / overwrites / clears on them: an operation on an earlier section re-draws the
+          sections shown below it; every line is judged as it stands ON THE SCREEN after every operation
+          (terminal interpretation of the bytes): it must carry the indentation that was in force on ITS section when
+          it was written
 """
 import hashlib
 import itertools
+import os
 import re
 
 ID = "C11"
@@ -23,7 +30,7 @@ DESIGN_REF = "6/C11"
 TECHNIQUE = ("Lean 4 proofs about executable models of StyleConverter + pastel's Style.apply (SGR codes, tables "
              "regenerated from the sources on every run), of pastel's tag machine (regex scanner, style stack, "
              "colorized / plain run; tag -> style resolution is a parameter) and of Output/IO/SectionOutput writes "
-             "and Indent scopes; differential correspondence of every model against the real formatters / outputs "
+             "and Indent scopes (also over several section outputs, composed with the section / terminal models of C15); differential correspondence of every model against the real formatters / outputs "
              "(exhaustive over the style table) + the property statement evaluated directly on the implementation")
 LEVEL_TEXT = ("Proved for all inputs of the models: SGR codes of every style are exactly fg, bg and one code per "
               "attribute through all three ways of supplying it; ANSI-stripped decorated rendering = plain rendering "
@@ -31,7 +38,10 @@ LEVEL_TEXT = ("Proved for all inputs of the models: SGR codes of every style are
               "the concatenation of their texts and leave the stack unchanged; plain rendering is ESC-free and shows "
               "no resolved tag; line methods append exactly one newline; every non-empty line gets exactly the "
               "indentation in force, before and after formatting (plain, and decorated with the sequences stripped); every program of nested indentation scopes (any depth, exits by exception "
-              "included) restores the indentation and indents each line by its enclosing scopes only. The models "
+              "included) restores the indentation and indents each line by its enclosing scopes only - also over several "
+              "section outputs, where an operation on an earlier section re-draws the sections shown below: the screen shows every "
+              "line behind the indentation fixed by the scopes around ITS write (section_scopes_lexical, section_redraw_keeps_indent, "
+              "built on C15's screen_refines_indented). The models "
               "are tied to the code by regenerated tables (style set, converter, pastel SGR tables, the write gate) "
               "and by differential runs against the real classes.")
 LEVEL_NOTE = ("Trusted: Lean kernel + propext/Quot.sound/Classical.choice; tools/genparts/c11.py; this harness; "
@@ -47,7 +57,9 @@ REQUIRED_THEOREMS = ["Clikit.Props.C11." + n for n in (
     "sgr_exact", "strip_eq_plain", "balanced_text", "plain_no_escape", "line_methods_newline",
     "indent_lines", "indent_lines_rendered", "scope_restores", "message_strip_eq_plain", "message_balanced",
     "io_delegates", "balanced_decides", "message_ok_decides", "balanced_text_decided", "message_balanced_decided",
-    "indent_lines_rendered_decided", "spec_codes_decides", "sgr_exact_decided", "sgr_call_ignores_registered_tag")]
+    "indent_lines_rendered_decided", "spec_codes_decides", "sgr_exact_decided", "sgr_call_ignores_registered_tag",
+    # indentation scopes over several sections (Model/SectionScopes.lean on the section model of C15)
+    "section_scopes_lexical", "section_redraw_keeps_indent")]
 RULE = ("msg: random ASTs (depth <= 4) over named styles of the default style set (any case), inline "
         "fg/bg/options specs, unknown tags, text over ASCII, '<' '>' '/', newline, non-ASCII incl. the four "
         "non-ASCII letters Python's case-insensitive [a-z] admits; non-trivial = at least one style node, distinct "
@@ -62,7 +74,14 @@ RULE = ("msg: random ASTs (depth <= 4) over named styles of the default style se
         "product object x method x formatter {ansi forced, ansi unforced, plain, null} x indent 0..4 x fixed "
         "multi-line texts (+ random ASTs in the thorough tier); non-trivial = indent > 0 or a line method. "
         "scopes: every chain of scopes of depth <= 3 (thorough: 4) over target {io,out,err} x {set,increment} x "
-        "n in {1,3} with an exit variant, plus random trees; non-trivial = at least one scope. bad: random "
+        "n in {1,3} with an exit variant, plus random trees; non-trivial = at least one scope. secprog: SEVERAL SECTIONS "
+        "x indentation scopes - the table 2-3 sections showing 0/1/2 lines each (written at indentation 0 or inside a scope "
+        "of their own) x an operation {write_line, overwrite, clear(), clear(1)} on an EARLIER section inside a scope on it "
+        "(set 4 / increment 1 / set 2 + increment 3) x one more write after the scope x {Output.section(), IO.section()} x "
+        "output indentation {0, 2} (6048 programs; quick: a quarter, some also undecorated), plus random program trees "
+        "(1-3 sections, some created inside scopes on the output, scopes on sections / the output, set / increment 0-5, try / "
+        "raise, depth <= 3); the screen is judged after EVERY operation; non-trivial = at least one scope and (decorated) at "
+        "least one re-draw. bad: random "
         "unbalanced tag sequences; counted, never non-trivial.")
 TRUSTED_BASE = [
     "Lean 4.33 kernel; axioms propext, Classical.choice, Quot.sound only (audited per theorem on every run)",
@@ -73,6 +92,9 @@ TRUSTED_BASE = [
     "filled per message by pastel itself; Python `re` semantics of FULL_TAG_REGEX are modelled by hand and "
     "validated on every generated message",
     "CPython str.split/join/rstrip/replace semantics (modelled by hand)",
+    "secprog: lean/Clikit/Model/SectionScopes.lean (hand-written, sampled by the correspondence: bytes, content and row "
+    "counter of every section after every operation, indentations afterwards) on C15's Section / SectionIndent / Term "
+    "models; the oracle's terminal interpretation is C15's character-level emulator (harness/props/c15.py Emu)",
 ]
 ASSUMPTIONS = [
     "messages contain no backslash and no ESC (backslash-escaped tags are outside the property's quantifier; "
@@ -81,9 +103,12 @@ ASSUMPTIONS = [
     "'balanced style tags' is the inductive predicate Balanced over the pieces pastel cuts the message into, relative to "
     "what pastel makes of each tag: decided by the model on every generated message of the msg and write families "
     "(wf.balanced = balancedB, proved equivalent to Balanced, compared with true)",
-    "section outputs: a single section per stream (stacked sections are C15's subject); histories of writes, "
+    "section outputs, families write / secseq: a single section per stream; histories of writes, "
     "overwrites and clears on it only without decoration, where every call must append what it writes on a "
-    "fresh section (the model answers call by call)",
+    "fresh section (the model answers call by call). Family secprog: several sections of one output under indentation "
+    "scopes, tag-free lines that do not wrap (COLUMNS=80) and do not start with a blank; judged is the indentation of every "
+    "line on the screen - that the screen shows the lines the sections hold at all is C15's subject (a screen whose texts "
+    "differ is not judged here)",
     "indent_lines_rendered (formatting keeps every line's indentation) is proved for the formatter entry points "
     "on backslash-free text; that Output.write hands exactly the indented text to them is indent_lines",
     "streams are BufferedOutputStreams (no ANSI capability of their own); decoration is forced by the formatter",
@@ -391,6 +416,93 @@ def gen_prog(rng, depth, width):
     return out
 
 
+# --------------------------------------------------------------------------- scope programs over several sections
+SEC_WIDTH = 80          # COLUMNS for the secprog family: no generated line wraps
+SEC_TEXTS = [["%s"], ["%s", ""], ["", "%s"], ["%sa", "%sb"], [""]]
+
+
+def _sec_lines(serial, shape):
+    return [(t % ("l%d" % serial)) if t else "" for t in SEC_TEXTS[shape % len(SEC_TEXTS)]]
+
+
+def secprog_table():
+    """the structured part: 2-3 sections showing 0 / 1 / 2 lines each (written at indentation 0 or inside a scope of
+    their own), then an operation on an EARLIER section inside a scope on it (set 4 / increment 1 / set 2 + increment 3),
+    then one more write on it after the scope; through Output.section() and through IO.section(); the output itself at
+    indentation 0 or 2 when the sections are created"""
+    for via in ("out", "io"):
+        for out0 in (0, 2):
+            for nsec in (2, 3):
+                for upper in range(nsec - 1):
+                    for fill in itertools.product((0, 1, 2), repeat=nsec):
+                        for lower_ind in (0, 3):
+                            for variant in range(3):
+                                for op in ("write", "overwrite", "clear", "clearN"):
+                                    prog = [{"create": True} for _ in range(nsec)]
+                                    serial = 0
+                                    for i in range(nsec - 1, -1, -1):       # the later-created sections show lines first
+                                        if fill[i]:
+                                            serial += 1
+                                            w = {"op": "write", "sec": i, "lines": _sec_lines(serial, 0 if fill[i] == 1 else 1 + (i + serial) % 3)}
+                                            if lower_ind and i != upper:
+                                                w = {"scope": "sec", "i": i, "inc": False, "n": lower_ind, "body": [w]}
+                                            prog.append(w)
+                                    serial += 1
+                                    act = {"op": op, "sec": upper}
+                                    if op in ("write", "overwrite"):
+                                        act["lines"] = _sec_lines(serial, variant)
+                                    if op == "clearN":
+                                        act["n"] = 1
+                                    if variant == 0:
+                                        prog.append({"scope": "sec", "i": upper, "inc": False, "n": 4, "body": [act]})
+                                    elif variant == 1:
+                                        prog.append({"scope": "sec", "i": upper, "inc": True, "n": 1, "body": [act]})
+                                    else:
+                                        prog.append({"scope": "sec", "i": upper, "inc": False, "n": 2, "body": [
+                                            {"scope": "sec", "i": upper, "inc": True, "n": 3, "body": [act]}]})
+                                    prog.append({"op": "write", "sec": upper, "lines": _sec_lines(serial + 1, 0)})
+                                    yield {"k": "secprog", "fmt": "ansi", "via": via, "out": out0, "prog": prog}
+
+
+def gen_secprog(rng, depth, width, st):
+    """random program; `st["k"]`: sections created so far (generation order = execution order: nothing is generated
+    behind a raise).  Returns (statements, an exception leaves the block)"""
+    out = []
+    for _ in range(rng.randint(1, width)):
+        r = rng.random()
+        k = st["k"]
+        if k == 0 or (r < 0.12 and k < 3):
+            out.append({"create": True})
+            st["k"] += 1
+        elif r < 0.55 or depth <= 0:
+            st["serial"] += 1
+            i = rng.randrange(k)
+            x = rng.random()
+            if x < 0.6:
+                out.append({"op": "write", "sec": i, "lines": _sec_lines(st["serial"], rng.randrange(5))})
+            elif x < 0.8:
+                out.append({"op": "overwrite", "sec": i, "lines": _sec_lines(st["serial"], rng.randrange(5))})
+            elif x < 0.9:
+                out.append({"op": "clear", "sec": i})
+            else:
+                out.append({"op": "clearN", "sec": i, "n": rng.choice([1, 1, 2, 3])})
+        elif r < 0.88:
+            sc = {"scope": "out"} if rng.random() < 0.25 else {"scope": "sec", "i": rng.randrange(k)}
+            sc.update(inc=rng.random() < 0.5, n=rng.choice([0, 1, 2, 3, 5]))
+            body, raised = gen_secprog(rng, depth - 1, width, st)
+            sc["body"] = body
+            out.append(sc)
+            if raised:
+                return out, True
+        elif r < 0.95:
+            body, _ = gen_secprog(rng, depth, max(1, width - 1), st)
+            out.append({"try": body})
+        else:
+            out.append({"raise": True})
+            return out, True
+    return out, False
+
+
 # --------------------------------------------------------------------------- generation
 def sgr_case(i):
     route = ["tag", "add", "call"][i % 3]
@@ -497,6 +609,24 @@ def generate(tier, rng):
     for _ in range(30000 if thorough else 1000):
         yield {"k": "scopes", "prog": gen_prog(rng, 4 if thorough else 3, 3),
                "out": rng.choice([0, 0, 2]), "err": rng.choice([0, 0, 1])}
+    # ---- indentation scopes over several sections (re-draws of the sections shown below)
+    for j, c in enumerate(secprog_table()):
+        if thorough or (j + seed_shift) % 4 == 0:
+            yield c
+            if (j + seed_shift) % 24 == 0:
+                yield dict(c, fmt="plain")
+    for j in range(20000 if thorough else 1200):
+        st = {"k": 0, "serial": 0}
+        head = []
+        for _ in range(rng.choice([1, 2, 2, 3, 3])):
+            # some sections are created inside a scope on the output: they inherit its indentation
+            head.append({"create": True} if rng.random() < 0.7 else
+                        {"scope": "out", "inc": rng.random() < 0.5, "n": rng.choice([1, 2, 4]), "body": [{"create": True}]})
+            st["k"] += 1
+        prog, _ = gen_secprog(rng, 3, 4, st)
+        prog = head + prog
+        yield {"k": "secprog", "fmt": "plain" if j % 8 == 7 else "ansi", "via": rng.choice(["out", "io"]),
+               "out": rng.choice([0, 0, 1, 3]), "prog": prog}
     # ---- malformed stream
     for _ in range(20000 if thorough else 1000):
         yield {"k": "bad", "msg": gen_bad(rng)}
@@ -763,7 +893,67 @@ def _run_scopes(case):
     return _guard(go)
 
 
+def _run_secprog(case):
+    from clikit.io.buffered_io import BufferedIO
+    os.environ["COLUMNS"] = str(SEC_WIDTH)
+    os.environ.pop("LINES", None)
+    io = BufferedIO(formatter=_formatter(case["fmt"]))
+    via_io = case["via"] == "io"
+    base = io if via_io else io.output
+    base.indent(case["out"])                    # the indentation the output has from the start
+    secs, steps, pos = [], [], [0]
+
+    def sec_out(i):
+        return secs[i].output if via_io else secs[i]
+
+    def step():
+        buf = io.fetch_output()
+        steps.append({"bytes": buf[pos[0]:], "secs": [[sec_out(i).content, sec_out(i).lines] for i in range(len(secs))]})
+        pos[0] = len(buf)
+
+    def run(stmts):
+        for s in stmts:
+            if "create" in s:
+                secs.append(base.section())
+                step()
+            elif "op" in s:
+                o = sec_out(s["sec"])
+                if s["op"] == "write":
+                    (secs[s["sec"]] if via_io else o).write_line("\n".join(s["lines"]))
+                elif s["op"] == "overwrite":
+                    o.overwrite("\n".join(s["lines"]))
+                elif s["op"] == "clear":
+                    o.clear()
+                else:
+                    o.clear(s["n"])
+                step()
+            elif "scope" in s:
+                tgt = base if s["scope"] == "out" else secs[s["i"]]
+                cm = tgt.increment_indent(s["n"]) if s["inc"] else tgt.indent(s["n"])
+                with cm:
+                    run(s["body"])
+            elif "try" in s:
+                try:
+                    run(s["try"])
+                except _Boom:
+                    pass
+            else:
+                raise _Boom()
+
+    def go():
+        raised = False
+        try:
+            run(case["prog"])
+        except _Boom:
+            raised = True
+        return {"steps": steps, "raised": raised, "err": io.fetch_error(),
+                "indent": [io.output._indent] + [sec_out(i)._indent for i in range(len(secs))]}
+    return _guard(go)
+
+
 def run_impl(case):
+    if case["k"] == "secprog":
+        return _run_secprog(case)
     return {"msg": _run_msg, "bad": _run_bad, "sgr": _run_sgr, "write": _run_write, "scopes": _run_scopes,
             "secseq": _run_secseq}[case["k"]](case)
 
@@ -837,6 +1027,9 @@ def model_requests(case):
         return [{"m": "c11.write", "kind": "section", "method": op, "fmt": case["fmt"], "stream_ansi": False,
                  "indent": case["indent"], "quiet": False, "verbosity": 0, "flags": None, "text": raw_of(arg),
                  "table": _table(raw_of(arg))} for op, arg in case["ops"] if op != "clear"]
+    if k == "secprog":
+        return [{"m": "c11.secprog", "width": SEC_WIDTH, "ansi": case["fmt"] == "ansi", "out": case["out"],
+                 "prog": case["prog"]}]
     return [{"m": "c11.scopes", "prog": case["prog"], "out": case["out"], "err": case["err"]}]
 
 
@@ -884,6 +1077,13 @@ def model_obs(case, answers):
             out.append(a["out"])
         return {"out": "".join(out), "err": ""}
     a = answers[0]
+    if k == "secprog":
+        # "lexical": the base section model on the lexical reading of the program gives the same sections and the
+        # same stream (Props.C11.section_scopes_lexical / section_redraw_keeps_indent)
+        return {"steps": [{"bytes": st["bytes"],
+                           "secs": [["".join(l + "\n" for l in x["content"]), x["rows"]] for x in st["secs"]]}
+                          for st in a["steps"]],
+                "raised": a["raised"], "indent": a["indent"], "err": "", "lexical": a["lexical"]}
     return {"out": a["out"], "err": a["err"], "raised": a["raised"], "indent": a["indent"]}
 
 
@@ -895,6 +1095,8 @@ def impl_view(case, obs):
     if case["k"] in ("msg", "write"):
         # every generated message is clean (no ESC, no backslash) and balanced: the model must decide so
         return dict(obs, wf=WF_TRUE)
+    if case["k"] == "secprog" and "steps" in obs:
+        return dict(obs, lexical=True)
     return obs
 
 
@@ -1091,8 +1293,102 @@ def _oracle_scopes(case, obs):
     return None
 
 
+def _secprog_walk(case):
+    """the program read LEXICALLY (indentation handed down by the enclosing scopes, never handed back): for every
+    executed create / operation the lines every section holds afterwards as (indentation in force when the line was
+    written, text); the indentations at the end; whether an exception leaves the program"""
+    snaps, holds, written = [], [], []
+
+    def snap():
+        snaps.append([list(h) for h in holds])
+
+    def walk(stmts, out, ind):
+        # `ind`: indentation of every section here; sections created inside are appended for the caller too
+        for s in stmts:
+            if "create" in s:
+                ind.append(out)
+                holds.append([])
+                snap()
+            elif "op" in s:
+                i, n = s["sec"], ind[s["sec"]]
+                if s["op"] in ("write", "overwrite"):
+                    written.extend((n, l) for l in s["lines"])
+                if s["op"] == "write":
+                    holds[i] = holds[i] + [(n, l) for l in s["lines"]]
+                elif s["op"] == "overwrite":
+                    holds[i] = [(n, l) for l in s["lines"]]
+                elif s["op"] == "clear" or s["n"] == 0:
+                    holds[i] = []
+                else:
+                    holds[i] = holds[i][:max(0, len(holds[i]) - s["n"])]
+                snap()
+            elif "scope" in s:
+                f = (lambda x: x + s["n"]) if s["inc"] else (lambda x: s["n"])
+                if s["scope"] == "out":
+                    inner = list(ind)
+                    r = walk(s["body"], f(out), inner)
+                else:
+                    inner = list(ind)
+                    inner[s["i"]] = f(ind[s["i"]])
+                    r = walk(s["body"], out, inner)
+                ind.extend(inner[len(ind):])      # only the sections created inside remain
+                if r:
+                    return True
+            elif "try" in s:
+                walk(s["try"], out, ind)
+            else:
+                return True
+        return False
+
+    ind = []
+    raised = walk(case["prog"], case["out"], ind)
+    return snaps, [case["out"]] + ind, raised, written
+
+
+def _oracle_secprog(case, obs):
+    if "err" in obs and "steps" not in obs:
+        return "program of scopes over sections raised %s" % obs["err"]
+    if obs["err"]:
+        return "bytes on the wrong stream"
+    snaps, indent, raised, written = _secprog_walk(case)
+    if obs["raised"] != raised:
+        return "exception propagation differs"
+    if obs["indent"] != indent:
+        return "indentation after the program is %s, before the scopes it was %s" % (obs["indent"], indent)
+    if len(obs["steps"]) != len(snaps):
+        return "harness: %d operations ran, %d expected" % (len(obs["steps"]), len(snaps))
+    if case["fmt"] != "ansi":
+        # undecorated: the appended lines, each non-empty one behind the indentation in force, no control code
+        data = "".join(st["bytes"] for st in obs["steps"])
+        if ESC in data:
+            return "an undecorated section output emitted an escape byte: %r" % data
+        want = "".join(((" " * n + t) if t else t) + "\n" for n, t in written)
+        return None if data == want else (
+            "undecorated sections: wrote %r, required the appended lines behind the indentation in force %r" % (data, want))
+    from harness.props.c15 import Emu
+    emu = Emu(SEC_WIDTH)
+    for k, (st, holds) in enumerate(zip(obs["steps"], snaps)):
+        emu.feed(strip_ansi(st["bytes"]))
+        if emu.bad:
+            return None         # an unknown control sequence: what the screen shows is C15's subject
+        rows = emu.screen()
+        want = [(i, n, t) for i, h in enumerate(holds) for n, t in h]
+        while want and want[-1][2] == "" and len(want) > len(rows):
+            want.pop()          # empty lines at the very end are not visible
+        if [r.lstrip(" ") for r in rows] != [t for _, _, t in want]:
+            return None         # the screen does not show the lines the sections hold: C15's subject, not an indentation
+        for r, (i, n, t) in zip(rows, want):
+            got = len(r) - len(r.lstrip(" "))
+            if t and got != n:
+                return ("after operation %d the line %r of section %d stands on the screen behind %d blanks; the "
+                        "indentation in force on that section when it was written was %d" % (k, t, i, got, n))
+    return None
+
+
 def oracle(case, obs):
     k = case["k"]
+    if k == "secprog":
+        return _oracle_secprog(case, obs)
     if k == "msg":
         if not well_formed_text(case["ast"]):
             return None
@@ -1117,8 +1413,25 @@ def _h(s):
     return hashlib.sha1(s.encode("utf-8")).hexdigest()[:12]
 
 
+def _secprog_depth(stmts):
+    d = 0
+    for s in stmts:
+        if "scope" in s:
+            d = max(d, 1 + _secprog_depth(s["body"]))
+        elif "try" in s:
+            d = max(d, _secprog_depth(s["try"]))
+    return d
+
+
 def nontrivial_key(case, obs):
     k = case["k"]
+    if k == "secprog":
+        # at least one scope and (decorated) at least one re-draw of sections shown below
+        if _secprog_depth(case["prog"]) == 0:
+            return None
+        if case["fmt"] == "ansi" and not any(ESC + "[" in st["bytes"] for st in obs.get("steps", [])):
+            return None
+        return "r" + _h(repr(case))
     if k == "msg":
         if count_styles(case["ast"]) == 0:
             return None
@@ -1148,6 +1461,10 @@ def nontrivial_key(case, obs):
 
 def bucket(case, obs):
     k = case["k"]
+    if k == "secprog":
+        return "secprog:%s:%s:sections=%d:depth=%d%s" % (
+            case["fmt"], case["via"], len(obs["indent"]) - 1 if "indent" in obs else 0,
+            min(3, _secprog_depth(case["prog"])), ",raised" if obs.get("raised") else "")
     if k == "msg":
         n = count_styles(case["ast"])
         return "msg:styles=%s%s%s" % (n if n < 4 else "4+", ",stack" if case["pre"] else "",
@@ -1197,8 +1514,46 @@ def _shrink_prog(stmts):
             yield stmts[:i] + [dict(s, w=s["w"][:1])] + stmts[i + 1:]
 
 
+def _shrink_secprog(stmts):
+    """statements dropped (never a create: the section numbers stay), scopes / try blocks unwrapped, texts shortened"""
+    for i, s in enumerate(stmts):
+        if "create" not in s:
+            yield stmts[:i] + stmts[i + 1:]
+        if "scope" in s:
+            yield stmts[:i] + s["body"] + stmts[i + 1:]
+            for sub in _shrink_secprog(s["body"]):
+                yield stmts[:i] + [dict(s, body=sub)] + stmts[i + 1:]
+            if s["n"] > 1:
+                yield stmts[:i] + [dict(s, n=1)] + stmts[i + 1:]
+        elif "try" in s:
+            yield stmts[:i] + s["try"] + stmts[i + 1:]
+            for sub in _shrink_secprog(s["try"]):
+                yield stmts[:i] + [{"try": sub}] + stmts[i + 1:]
+        elif "op" in s and s["op"] in ("write", "overwrite") and len(s["lines"]) > 1:
+            for t in range(len(s["lines"])):
+                yield stmts[:i] + [dict(s, lines=s["lines"][:t] + s["lines"][t + 1:])] + stmts[i + 1:]
+
+
+def _secprog_ok(case):
+    try:
+        _secprog_walk(case)
+        return True
+    except (IndexError, KeyError):
+        return False
+
+
 def shrink(case):
     k = case["k"]
+    if k == "secprog":
+        for p in _shrink_secprog(case["prog"]):
+            c = dict(case, prog=p)
+            if p and _secprog_ok(c):
+                yield c
+        if case["out"]:
+            yield dict(case, out=0)
+        if case["via"] == "io":
+            yield dict(case, via="out")
+        return
     if k in ("msg", "write"):
         for nodes in _shrink_nodes(case["ast"]):
             nodes = normalise(nodes)
@@ -1246,6 +1601,17 @@ def shrink(case):
 
 def neighbours(case):
     k = case["k"]
+    if k == "secprog":
+        for via in ("out", "io"):
+            for out0 in (0, 2):
+                yield dict(case, via=via, out=out0, fmt="ansi")
+        # the same program with a later-created section showing a line first, and one more write on the first section
+        if any("create" in s for s in case["prog"]):
+            tail = [{"create": True}, {"op": "write", "sec": 0, "lines": ["zz"]}]
+            yield dict(case, fmt="ansi", prog=case["prog"] + tail)
+            yield dict(case, fmt="ansi", prog=case["prog"] + [
+                {"scope": "sec", "i": 0, "inc": False, "n": 3, "body": [{"op": "write", "sec": 0, "lines": ["zz"]}]}])
+        return
     if k == "sgr" and case["route"] == "ctag":
         for a in ATTRS:
             yield dict(case, attrs=sorted(set(case["attrs"]) ^ {a}, key=ATTRS.index))
